@@ -319,7 +319,8 @@ def V1(vc):
 
 
 # ----------------------------------------------------------------------------------------------- V2
-@harness('V2', targets=[f'{INV}.ResourceMemories.recall', f'{INV}.ResourceMemories.recall_memo'], props=['C14', 'C03', 'C06', 'C08', 'C13', 'C17', 'C18'],
+@harness('V2', targets=[f'{INV}.ResourceMemories.recall', f'{INV}.ResourceMemories.recall_memo'], props=['C14', 'C03', 'C06', 'C08', 'C13', 'C17', 'C18', 'C05'],
+         prop_clauses={'C05': ['listed_preexisting_object_is_noticed', 'relisting_changes_nothing']},
          clauses=['listed_preexisting_object_is_noticed', 'relisting_changes_nothing', 'call_sites_known'],
          canaries=['canary.always_noticed'],
          trusted=['the keyword expressions `noticed_by_listing=...` (processing.process_resource_event) and '
